@@ -827,6 +827,9 @@ def removed_iff_no_ptr_left(ctx, P, pre):
     found = 0
     bad = []
     for g in [P.fns[c] for c in _closures_rec(P, f)]:
+        site = _closure_site(P, g)
+        adaptor = method(cname(site[2])) if site else "any"
+        want_eq = adaptor != "all"        # `!any(alias == x)` and `all(alias != x)` say the same
         for e in ret_exprs(P, g):
             for a in (e[1] if e[0] == "phi" else (e,)):
                 neg = False
@@ -836,7 +839,7 @@ def removed_iff_no_ptr_left(ctx, P, pre):
                 if a[0] == "call" and method(strip_generics(a[1])) in ("eq", "ne") and has_call(a, "DnsPointer::alias"):
                     found += 1
                     is_eq = (method(strip_generics(a[1])) == "eq") != neg
-                    if not is_eq:
+                    if is_eq != want_eq:
                         bad.append(g.loc())
     ctx.ob(pre + ".removed-iff-no-ptr-left", f.name, found >= 1 and not bad, f.loc(),
            "the remaining PTR records are searched for `alias == instance` (%d test(s))" % found if not bad else
